@@ -17,7 +17,7 @@ def expl(pid, tech, text):
 expl("C02", "runtime monitoring: differential oracle (bit-exact reference expression evaluator) over real executions",
      "Held on every generated (table, select list, WHERE) explored: row count, exact key set and bit-exact values against a reference evaluator doing the same IEEE-754 operations.")
 expl("C03", "runtime monitoring: differential oracle (reference group-by, sequence-exact) + conservation law + repeated-run determinism",
-     "Held on every generated grouped / whole-table aggregate query explored, each run several times on fresh copies: groups in first-appearance order, members in source order, exact aggregates, sum(COUNT(*)) = filtered rows.")
+     "Held on every generated grouped / whole-table aggregate query explored, each run several times on fresh copies: groups in first-appearance order, members in source order, exact aggregates, sum(COUNT(*)) = filtered rows; aliased tables with qualified column names; one Query re-executed while a variable read by WHERE changes.")
 expl("C04", "runtime monitoring: differential oracle (nested-loop reference multiset) across every strategy spelling + metamorphic ON re-spellings; Go race detector with hook-injected yields for the PARALLEL variants",
      "Held on every generated (tables, ON tree, join type) explored under every strategy spelling; key columns of one kind or of mixed kinds (numbers vs numeric strings); PARALLEL variants additionally repeated under -race with yields inside the join goroutines (distinct output orders observed are reported).")
 expl("C05", "runtime monitoring: permutation + adjacent-pair order + window oracle over three real executions",
@@ -43,15 +43,15 @@ expl("C20", "runtime monitoring: sequential per-key register model replayed agai
      "Held on every generated history (1..4 queries, 1..4 keys) explored: GETVAR values, no SETVAR column, caller's map after each Exec; ORDER BY does not reorder evaluation; grouped queries evaluate each group's select list once.")
 
 expl("C10", "runtime monitoring: process-level crash/hang monitor (recover at the API, child exit status, watchdog, background-call quiescence) over seeded hostile workloads in crash-isolated children; thorough adds a -race pass",
-     "Held on every generated (query, option set, document) explored across 27 families of valid, mutated, random and named-hostile inputs: control always returned with rows or an error; no escaped panic, process death or hang. 'Never loops forever' is decided as bounded progress.")
+     "Held on every generated (query, option set, document) explored across 28 families of valid, mutated, random and named-hostile inputs: control always returned with rows or an error; no escaped panic, process death or hang. 'Never loops forever' is decided as bounded progress.")
 CHECKS["C11"] = ("fault_enumeration", "runtime monitoring: cycle-safe input snapshot before/after New+Exec; fault enumeration over every invocation index of an injected failing function (error and three panic kinds)",
      "Held on every generated query explored, on success and on error, with and without Wrapped; for queries with a fault position every crash point k = 1..N is enumerated (exhaustive in k per query, sampled in queries).", TRUST, "DESIGN.md §6 C11")
 expl("C12", "runtime monitoring: plain-data type walk + encoding/json round trip + repeated evaluation, over the full (expression form x clause position) matrix",
-     "Held on every successful query of the enumerated form x position matrix, of special select items (ASYNC in plain / UNION / CTE / derived / multi-dimensional sources, FUSE, SETVAR, tuples, dual-star) and of the rich grammar: only JSON-representable acyclic values, no engine-internal type or `<-` key, equal results on repetition with a fresh Query and on a second Exec of the same Query object; the same Query object executed again after an execution that failed part-way; grouping over look-alike keys repeated; heavy PARALLEL joins repeated for schedule-independence.")
+     "Held on every successful query of the enumerated form x position matrix, of special select items (ASYNC in plain / UNION / CTE / derived / multi-dimensional sources, FUSE, SETVAR, tuples, dual-star) and of the rich grammar: only JSON-representable acyclic values, no engine-internal type or `<-` key, equal results on repetition with a fresh Query and on a second Exec of the same Query object; a LIMIT window over joins repeated (equal multisets); the same Query object executed again after an execution that failed part-way; grouping over look-alike keys repeated; heavy PARALLEL joins repeated for schedule-independence.")
 expl("C13", "Go race detector over concurrent and internally-parallel workloads with hook-injected yields + per-goroutine result vs run-alone result + shared-document snapshot",
      "Held on every concurrent workload explored (5 workload kinds, 2..16 goroutines): no race report with genql frames, no child death, no deadlock, no cross-talk, shared document unchanged. Says nothing about schedules the runs did not produce.")
 expl("C14", "runtime monitoring: invocation ledger (atomic sequence numbers) of instrumented user functions vs exec-return, result vs pure-function reference, under injected latency profiles; -race pass with hook yields",
-     "Held on every generated (table, select list, latency profile) explored: ASYNC/SPINASYNC invoked exactly once per row and completed before Exec returned, ASYNC values equal the unqualified call, no extra column, ONCE once per query, immediate functions (also mixed-case registrations) reject ASYNC/SPIN/SPINASYNC; LIMIT/OFFSET pages, also empty ones, leave no call running; ASYNC items of derived tables used as join operands are awaited and resolved.")
+     "Held on every generated (table, select list, latency profile) explored: ASYNC/SPINASYNC invoked exactly once per row and completed before Exec returned, ASYNC values equal the unqualified call, no extra column, ONCE once per query, immediate functions (also mixed-case registrations) reject ASYNC/SPIN/SPINASYNC; LIMIT/OFFSET pages, also empty ones, leave no call running; ASYNC items of derived tables used as join operands are awaited and resolved; ORDER BY / DISTINCT over async columns equal the unqualified query; ASYNC over built-in functions with large payloads; no call is left running when Exec returns an error.")
 CHECKS["C19"] = ("fault_enumeration", "runtime monitoring: fault enumeration - a failing user function placed in every clause position, every invocation index k = 1..N enumerated; RAISE_WHEN on every row index; type errors in every clause; follow-up query vs pristine copy",
      "Held for every fault point of every generated query explored: (no rows, error), an unaffected follow-up query on the same input, the same Query object usable again, and a failing query failing again when repeated; type errors include a reader error on a single row (ORDER BY path, later join key column). Exhaustive in k per query, sampled in queries.", TRUST, "DESIGN.md §6 C19")
 
